@@ -74,6 +74,9 @@ func (s *Sim) RandUser() *core.Account { return s.W.Users[s.Rng.Intn(len(s.W.Use
 // destination, optional destination call of the given kinds.
 func (s *Sim) RandSendSpec(callKinds []string) SendSpec {
 	src, dst := s.RandNodePair()
+	if len(s.Focus) == 2 && s.Rng.Intn(100) < s.FocusPct {
+		src, dst = s.Focus[0], s.Focus[1]
+	}
 	u := s.RandUser()
 	sp := SendSpec{Src: src, Dst: dst, User: u, Receiver: LowerHex(s.RandUser().Eth)}
 	// tokens usable on this path: origin==src (forward) or origin==dst (back, if the user holds wrapped tokens)
